@@ -10,13 +10,15 @@ from symx.obligation import Obligation
 from props.engine_common import engine_rig, CONTROL
 
 PCODE = "Mark: A\nBlock: B1\n    Mark: B\n    Wait: 30s\n    End block\nMark: C\n"
+# a method whose third instruction fails: the run is paused by the error (no Pause command involved)
+PCODE_ERR = "Block: B1\n    Mark: B\n    Foo\n    Wait: 30s\n"
 CMDS = ["none"] + CONTROL
 
 
 def harness(sym):
     n = sym.shard.get("n", 4)
     prefix = sym.shard.get("cmds", [])
-    with engine_rig(sym, PCODE) as rig:
+    with engine_rig(sym, PCODE_ERR if sym.shard.get("error") else PCODE) as rig:
         e = rig.engine
         rig.user("Start")
         trace = ["Start"]
@@ -61,8 +63,8 @@ def harness(sym):
 
 def _shards(tier):
     if tier == "quick":
-        return [{"n": 4, "cmds": [a, b]} for a in CMDS for b in CMDS]
-    return [{"n": 5, "cmds": [a, b]} for a in CMDS for b in CMDS]
+        return [{"n": 4, "cmds": [a, b]} for a in CMDS for b in CMDS] + [{"n": 5, "cmds": ["none", "none", a], "error": True} for a in CMDS]
+    return [{"n": 5, "cmds": [a, b]} for a in CMDS for b in CMDS] + [{"n": 7, "cmds": ["none", "none", a], "error": True} for a in CMDS]
 
 
 OBLIGATIONS = [Obligation(
@@ -74,7 +76,7 @@ OBLIGATIONS = [Obligation(
              "openpectus.engine.command_manager:CommandManager.execute_commands"],
     symbolic="tick increments: arbitrary strictly positive reals (<=10 s) per tick; control command before each tick: selector over none/Start/Stop/Pause/Unpause/Hold/Unhold/Restart",
     bounds={"quick": "Start, 2 idle ticks, then 4 command slots each followed by a tick (7 ticks), one method with a block and a long Wait",
-            "thorough": "Start, 2 idle ticks, then 5 command slots (8 ticks)"},
+            "thorough": "Start, 2 idle ticks, then 5 command slots (8 ticks); plus a method whose instruction fails (error pause) followed by command slots"},
     assumptions=["floats modelled as reals (CrossHair RealBasedSymbolicFloat); counterexamples are replayed with IEEE floats",
                  "zero increments excluded (separate boundary, forks every set_value on 'unchanged')",
                  "a tick in which System State changes is tolerated either way (the statement does not fix the order inside a tick)",
